@@ -9,8 +9,10 @@
 (*   MemLookup (parser_cache[g][p]; a stale memory entry falls through     *)
 (*   WITHOUT consulting the disk), DiskStat (getmtime of the pickle),      *)
 (*   DiskLoad (open + pickle.load, a separate step: the pickle may be      *)
-(*   replaced or damaged in between), Read (file_io.read), Parse+MemStore  *)
-(*   (try_to_save_module -> _set_cache_item), DiskStore (open('wb') +      *)
+(*   replaced or damaged in between), StatCT (the stat whose result        *)
+(*   becomes the entry's change_time: BEFORE Read in the repaired code,    *)
+(*   after it in the original), Read (file_io.read), Store (parse +        *)
+(*   try_to_save_module -> _set_cache_item), DiskStore (open('wb') +       *)
 (*   pickle.dump, may be torn by a crash), Return.                         *)
 (* The environment writes files (each write is observable as a newer       *)
 (* mtime), lets time pass, restarts the process (memory dropped), runs a   *)
@@ -23,8 +25,9 @@
 (***************************************************************************)
 EXTENDS Naturals, Sequences, FiniteSets, TLC
 
-CONSTANTS Paths, Grammars, Dirs, Contents, MaxClock, MaxCalls, MaxFaults,
-          StatBeforeRead, CompareChangeTime, TolerantLoad, Hist
+CONSTANTS Paths, Grammars, Dirs, Contents, InitC, MaxClock, MaxCalls, MaxFaults,
+          StatBeforeRead, CompareChangeTime, TolerantLoad, Hist,
+          EnvSet     \* which environment actions are enabled: subset of {"Tick","Write","Restart","Evict","RemoveFile","Damage","OtherCall","Crash"}
 
 None == [none |-> TRUE]
 Key == Grammars \X Paths                      \* memory is keyed by (grammar, path) - not by cache dir
@@ -49,7 +52,7 @@ Log(e) == hist' = IF Hist THEN Append(hist, e) ELSE hist
 
 Init ==
   /\ clock = 1
-  /\ file = [p \in Paths |-> [c |-> CHOOSE x \in Contents : TRUE, m |-> 1]]
+  /\ file = [p \in Paths |-> [c |-> InitC, m |-> 1]]
   /\ mem = [k \in Key |-> None] /\ mem2 = [k \in Key |-> None]
   /\ disk = [k \in DKey |-> None]
   /\ call = Idle /\ ncalls = 0 /\ nfaults = 0 /\ seen = {} /\ result = None /\ hist = <<>>
@@ -119,9 +122,11 @@ Start(g, p, d) ==
 
 Step(name) == /\ Log(<<name>>) /\ UNCHANGED <<clock, file, mem2, ncalls, nfaults, seen>>
 Goto(l) == call' = [call EXCEPT !.pc = l]
+AfterMiss == IF StatBeforeRead THEN "statct" ELSE "read"
 ReturnTree(t) ==
   /\ call' = Idle
   /\ result' = [g |-> call.g, p |-> call.p, t |-> t, seen |-> seen]
+RetLog(name, t) == hist' = IF Hist THEN hist \o << <<name>>, <<"Return", t>> >> ELSE hist
 
 Stat1 ==
   /\ call.pc = "stat1"
@@ -132,41 +137,44 @@ MemLookup ==
   /\ call.pc = "memlookup"
   /\ LET e == mem[<<call.g, call.p>>] IN
      IF e # None
-     THEN IF call.pt <= e.ct THEN ReturnTree(e.t) ELSE Goto("read") /\ UNCHANGED result
-     ELSE Goto("diskstat") /\ UNCHANGED result
-  /\ Step("MemLookup") /\ UNCHANGED <<mem, disk>>
+     THEN IF call.pt <= e.ct THEN ReturnTree(e.t) /\ RetLog("MemLookup", e.t)
+          ELSE Goto(AfterMiss) /\ UNCHANGED result /\ Log(<<"MemLookup">>)
+     ELSE Goto("diskstat") /\ UNCHANGED result /\ Log(<<"MemLookup">>)
+  /\ UNCHANGED <<clock, file, mem2, ncalls, nfaults, seen, mem, disk>>
 
 DiskStat ==
   /\ call.pc = "diskstat"
   /\ LET e == disk[<<call.d, call.g, call.p>>] IN
-     IF e = None \/ call.pt > e.m THEN Goto("read") ELSE Goto("diskload")
+     IF e = None \/ call.pt > e.m THEN Goto(AfterMiss) ELSE Goto("diskload")
   /\ Step("DiskStat") /\ UNCHANGED <<mem, disk, result>>
 
 DiskLoad ==
   /\ call.pc = "diskload"
   /\ LET e == disk[<<call.d, call.g, call.p>>] IN
-     IF e = None THEN Goto("read") /\ UNCHANGED <<mem, result>>          \* FileNotFoundError: a miss
+     IF e = None THEN Goto(AfterMiss) /\ UNCHANGED <<mem, result>> /\ Log(<<"DiskLoad">>)   \* FileNotFoundError: a miss
      ELSE IF ~e.ok THEN
-          (IF TolerantLoad THEN Goto("read") /\ UNCHANGED <<mem, result>>   \* damaged pickle: a miss
+          (IF TolerantLoad THEN Goto(AfterMiss) /\ UNCHANGED <<mem, result>> /\ Log(<<"DiskLoad">>)  \* damaged: a miss
            ELSE call' = Idle /\ result' = [g |-> call.g, p |-> call.p, t |-> <<"RAISED">>, seen |-> seen]
-                /\ UNCHANGED mem)
-     ELSE IF CompareChangeTime /\ call.pt > e.ct THEN Goto("read") /\ UNCHANGED <<mem, result>>
+                /\ UNCHANGED mem /\ RetLog("DiskLoad", <<"RAISED">>))
+     ELSE IF CompareChangeTime /\ call.pt > e.ct THEN Goto(AfterMiss) /\ UNCHANGED <<mem, result>> /\ Log(<<"DiskLoad">>)
      ELSE /\ mem' = [mem EXCEPT ![<<call.g, call.p>>] = [t |-> e.t, ct |-> e.ct]]
-          /\ ReturnTree(e.t)
-  /\ Step("DiskLoad") /\ UNCHANGED disk
+          /\ ReturnTree(e.t) /\ RetLog("DiskLoad", e.t)
+  /\ UNCHANGED <<clock, file, mem2, ncalls, nfaults, seen, disk>>
+
+StatCT ==    \* the stat that becomes the entry's change_time
+  /\ call.pc = "statct"
+  /\ call' = [call EXCEPT !.pc = IF StatBeforeRead THEN "read" ELSE "store", !.ct = file[call.p].m]
+  /\ Step("StatCT") /\ UNCHANGED <<mem, disk, result>>
 
 Read ==
   /\ call.pc = "read"
-  /\ call' = [call EXCEPT !.pc = "store", !.content = file[call.p].c,
-                          !.ct = IF StatBeforeRead THEN call.pt ELSE 0]
+  /\ call' = [call EXCEPT !.pc = IF StatBeforeRead THEN "store" ELSE "statct", !.content = file[call.p].c]
   /\ Step("Read") /\ UNCHANGED <<mem, disk, result>>
 
-Store ==     \* parse, take the change time (Stat2 unless StatBeforeRead), memory store
+Store ==     \* parse, memory store
   /\ call.pc = "store"
-  /\ LET ct == IF StatBeforeRead THEN call.ct ELSE file[call.p].m
-         t == Tree(call.g, call.p, call.content)
-     IN /\ mem' = [mem EXCEPT ![<<call.g, call.p>>] = [t |-> t, ct |-> ct]]
-        /\ call' = [call EXCEPT !.pc = "diskstore", !.ct = ct]
+  /\ mem' = [mem EXCEPT ![<<call.g, call.p>>] = [t |-> Tree(call.g, call.p, call.content), ct |-> call.ct]]
+  /\ Goto("diskstore")
   /\ Step("Store") /\ UNCHANGED <<disk, result>>
 
 DiskStore ==
@@ -174,7 +182,8 @@ DiskStore ==
   /\ disk' = [disk EXCEPT ![<<call.d, call.g, call.p>>] =
                 [t |-> Tree(call.g, call.p, call.content), ct |-> call.ct, m |-> clock, ok |-> TRUE]]
   /\ ReturnTree(Tree(call.g, call.p, call.content))
-  /\ Step("DiskStore") /\ UNCHANGED mem
+  /\ RetLog("DiskStore", Tree(call.g, call.p, call.content))
+  /\ UNCHANGED <<clock, file, mem2, ncalls, nfaults, seen, mem>>
 
 CrashInStore ==    \* the process dies while writing the pickle: a torn file, memory gone
   /\ call.pc = "diskstore" /\ nfaults < MaxFaults /\ nfaults' = nfaults + 1
@@ -184,12 +193,18 @@ CrashInStore ==    \* the process dies while writing the pickle: a torn file, me
   /\ Log(<<"CrashInStore">>)
   /\ UNCHANGED <<clock, file, mem2, ncalls, seen>>
 
-CallStep == Stat1 \/ MemLookup \/ DiskStat \/ DiskLoad \/ Read \/ Store \/ DiskStore
-Env == \/ Tick \/ Restart
-       \/ \E p \in Paths, c \in Contents : Write(p, c)
-       \/ \E g \in Grammars, p \in Paths : Evict(g, p)
-       \/ \E d \in Dirs, g \in Grammars, p \in Paths : RemoveFile(d, g, p) \/ Damage(d, g, p) \/ OtherCall(g, p, d)
-Next == CallStep \/ CrashInStore \/ Env \/ \E g \in Grammars, p \in Paths, d \in Dirs : Start(g, p, d)
+CallStep == Stat1 \/ MemLookup \/ DiskStat \/ DiskLoad \/ StatCT \/ Read \/ Store \/ DiskStore
+Env == \/ "Tick" \in EnvSet /\ Tick
+       \/ "Restart" \in EnvSet /\ Restart
+       \/ "Write" \in EnvSet /\ \E p \in Paths, c \in Contents : Write(p, c)
+       \/ "Evict" \in EnvSet /\ \E g \in Grammars, p \in Paths : Evict(g, p)
+       \/ \E d \in Dirs, g \in Grammars, p \in Paths :
+             \/ "RemoveFile" \in EnvSet /\ RemoveFile(d, g, p)
+             \/ "Damage" \in EnvSet /\ Damage(d, g, p)
+             \/ "OtherCall" \in EnvSet /\ OtherCall(g, p, d)
+Done == ncalls = MaxCalls /\ call.pc = "idle"
+Next == ~Done /\ (CallStep \/ ("Crash" \in EnvSet /\ CrashInStore) \/ Env \/ \E g \in Grammars, p \in Paths, d \in Dirs : Start(g, p, d))
+Emit == (Hist /\ Done) => PrintT(<<"HIST", hist>>)
 Spec == Init /\ [][Next]_vars
 
 (* ----------------------------- A-properties ----------------------------- *)
